@@ -951,6 +951,7 @@ func getNonFallbackSelectors(n parser.PromQLExpr) (selectors []*promParser.Vecto
 				if js.Src.Selector != nil {
 					selectors = append(selectors, selectorWithoutOffset(js.Src.Selector))
 				}
+				selectors = append(selectors, nestedJoinSelectors(js.Src)...)
 			}
 		}
 		for _, us := range ls.Unless {
@@ -961,6 +962,20 @@ func getNonFallbackSelectors(n parser.PromQLExpr) (selectors []*promParser.Vecto
 				selectors = append(selectors, selectorWithoutOffset(us.Src.Selector))
 			}
 		}
+	}
+	return selectors
+}
+
+// nestedJoinSelectors returns selectors joined to a join source: `a * (b + c)` -> c.
+func nestedJoinSelectors(src utils.Source) (selectors []*promParser.VectorSelector) {
+	if joinHasFallback(src.Joins) {
+		return nil
+	}
+	for _, js := range src.Joins {
+		if js.Src.Selector != nil {
+			selectors = append(selectors, selectorWithoutOffset(js.Src.Selector))
+		}
+		selectors = append(selectors, nestedJoinSelectors(js.Src)...)
 	}
 	return selectors
 }
